@@ -23,22 +23,28 @@ fn spaces(tier: Tier) -> Vec<Space> {
     let mut s = SyncSys::new(3);
     s.updates = small_updates();
     v.push(Space { name: "R3-small", sys: s, depth: if tier == Tier::Quick { 6 } else { 8 } });
-    // S3: multi-version syncs: 1 MB operation, two replicas, tiny alphabet
-    let mut s = SyncSys::new(2);
-    s.updates = vec![("p".into(), Some("a".into()), 1), ("p".into(), Some("b".into()), 2), ("q".into(), Some("a".into()), 1)];
-    s.big_budget = if tier == Tier::Quick { 1 } else { 2 };
-    s.deletes = tier != Tier::Quick;
-    v.push(Space { name: "R2-big", sys: s, depth: if tier == Tier::Quick { 8 } else { 10 } });
     // commits of several operations (create+set; delete+create+set)
     let mut s = SyncSys::new(2);
     s.updates = vec![("p".into(), Some("a".into()), 1), ("p".into(), Some("b".into()), 2), ("p".into(), None, 2)];
     s.batches = true;
     v.push(Space { name: "R2-batches", sys: s, depth: if tier == Tier::Quick { 6 } else { 8 } });
+    // updates whose recorded old value is wrong (the caller held a stale copy): old values never
+    // leave the replica and must not influence what is stored, sent or converged to
+    let mut s = SyncSys::new(2);
+    s.updates = vec![("p".into(), Some("a".into()), 1), ("p".into(), Some("b".into()), 2), ("p".into(), None, 2)];
+    s.stale_old = true;
+    v.push(Space { name: "R2-stale-old-values", sys: s, depth: if tier == Tier::Quick { 6 } else { 8 } });
     // commits that contain invalid operations (redundant create, update of a missing task)
     let mut s = SyncSys::new(2);
     s.updates = vec![("p".into(), Some("a".into()), 1), ("q".into(), None, 4)];
     s.messy = true;
     v.push(Space { name: "R2-invalid-ops", sys: s, depth: if tier == Tier::Quick { 6 } else { 8 } });
+    // S3 (last of the quick spaces: it gets all the budget the cheap ones leave): multi-version syncs: 1 MB operation, two replicas, tiny alphabet
+    let mut s = SyncSys::new(2);
+    s.updates = vec![("p".into(), Some("a".into()), 1), ("p".into(), Some("b".into()), 2), ("q".into(), Some("a".into()), 1)];
+    s.big_budget = if tier == Tier::Quick { 1 } else { 2 };
+    s.deletes = tier != Tier::Quick;
+    v.push(Space { name: "R2-big", sys: s, depth: if tier == Tier::Quick { 8 } else { 10 } });
     if tier == Tier::Thorough {
         let mut s = SyncSys::new(4);
         s.updates = vec![("p".into(), Some("a".into()), 1), ("p".into(), Some("b".into()), 2)];
